@@ -203,30 +203,41 @@ struct _stream<Values...>::type final {
         stream& stream_;
         inplace_stop_token stopToken_;
 
+        // NOTE: this wrapper lives inside stream_.next_, so it is destroyed by
+        // deactivate_union_member(); everything needed afterwards is copied to
+        // locals first.
         void set_value(Values&&... values) && noexcept {
+          auto& receiver = receiver_;
+          auto& strm = stream_;
+          bool deactivated = false;
           UNIFEX_TRY {
             // Take a copy of the values before destroying the next operation
             // state in case the values are references to objects stored in
             // the operation object.
             [&](Values... values) {
-              unifex::deactivate_union_member(stream_.next_);
-              receiver_.set_value((Values&&)values...);
+              unifex::deactivate_union_member(strm.next_);
+              deactivated = true;
+              receiver.set_value((Values&&)values...);
             }((Values&&)values...);
           }
           UNIFEX_CATCH(...) {
-            unifex::deactivate_union_member(stream_.next_);
-            receiver_.set_error(std::current_exception());
+            if (!deactivated) {
+              unifex::deactivate_union_member(strm.next_);
+            }
+            receiver.set_error(std::current_exception());
           }
         }
 
         void set_done() && noexcept {
+          auto& receiver = receiver_;
           unifex::deactivate_union_member(stream_.next_);
-          receiver_.set_done();
+          receiver.set_done();
         }
 
         void set_error(std::exception_ptr ex) && noexcept {
+          auto& receiver = receiver_;
           unifex::deactivate_union_member(stream_.next_);
-          receiver_.set_error(std::move(ex));
+          receiver.set_error(std::move(ex));
         }
 
         template <typename Error>
@@ -261,14 +272,17 @@ struct _stream<Values...>::type final {
         cleanup_receiver_base& receiver_;
         stream& stream_;
 
+        // (as above: this wrapper lives inside stream_.cleanup_)
         void set_done() && noexcept {
+          auto& receiver = receiver_;
           unifex::deactivate_union_member(stream_.cleanup_);
-          receiver_.set_done();
+          receiver.set_done();
         }
 
         void set_error(std::exception_ptr ex) && noexcept {
+          auto& receiver = receiver_;
           unifex::deactivate_union_member(stream_.cleanup_);
-          receiver_.set_error(std::move(ex));
+          receiver.set_error(std::move(ex));
         }
 
         template <typename Error>
